@@ -163,12 +163,15 @@ def fam_mux(rec, tier, rnd):
             cases.append((cases[0][0], rnd.getrandbits(4)))  # duplicate key: first match wins
         has_default = rnd.random() < 0.7
         dflt = rnd.getrandbits(4)
-        def build(tw=tw, cases=cases, has_default=has_default, dflt=dflt):
+        def build(tw=tw, cases=cases, has_default=has_default, dflt=dflt, k=k):
             t = Signal(tw)
             m = Module()
             o = Signal(4)
             cs = [(kk, C(v, 4)) for kk, v in cases] + ([(None, C(dflt, 4))] if has_default else [])
-            m.d.comb += o.eq(switch_value(t, cs))
+            # the signature takes any Iterable: every third table is a one-shot generator, every third an iterator (seeded defect C36c)
+            form = k % 3
+            arg = cs if form == 0 else (c for c in cs) if form == 1 else iter(tuple(cs))
+            m.d.comb += o.eq(switch_value(t, arg))
             return m, [t], [o]
 
         def ref(t, cases=cases, has_default=has_default, dflt=dflt):
